@@ -15,4 +15,5 @@ def check(ctx, rep):
     tok.tok_5(ctx, rep)
     tok.tok_6(ctx, rep)
     tok.tok_7(ctx, rep)
+    tok.tok_9(ctx, rep)
     rep.note('Not decided: true positions.')
